@@ -1,14 +1,14 @@
 SPECIFICATION Spec
 CONSTANTS
-  Packets <- PacketsRouteQ
-  MaxPackets = 2
-  NR = 2
-  RFns <- RFnsRoute
-  SendSets <- NoSenders
-  MaxSends = 0
-  Mode = "router"
+  Packets <- PacketsTcp
+  MaxPackets = 1
+  NR = 0
+  RFns <- RFnsTcp
+  SendSets <- Send2Tcp
+  MaxSends = 4
+  Mode = "tcp"
   LateRegister = FALSE
-  Bug = "no_version_check"
+  Bug = "none"
 INVARIANT TypeOK
 INVARIANT CodecOK
 INVARIANT ReadsOK
